@@ -300,13 +300,31 @@ fn main() {
                         set_forwarder(None);
                         // let spawned request tasks finish
                         tokio::time::sleep(Duration::from_millis(50)).await;
-                        obs
+                        // everything the session created is released once it is over: the tunnel, its
+                        // connectors and any connection attempt still pending hold the forwarder
+                        let mut held = 0usize;
+                        if !real {
+                            for _ in 0..200 {
+                                held = Arc::strong_count(&fwd2).saturating_sub(2);
+                                if held == 0 { break; }
+                                tokio::time::sleep(Duration::from_millis(100)).await;
+                            }
+                        }
+                        (obs, held)
                     })
                 });
                 watchdog::leave();
                 rep.eval();
                 let obs = match res {
-                    Ok(o) => o,
+                    Ok((o, held)) => {
+                        if held > 0 {
+                            let kind = reqs2[0]["kind"].as_str().unwrap().to_string();
+                            let outcome = reqs2[0]["outcome"].as_str().unwrap().to_string();
+                            rep.violation_with(format!("tunnel:not-released:{}:{}:{}", proto, kind, outcome),
+                                format!("20 s (virtual) after the session ended {} object(s) of it (tunnel, connector or a pending connection attempt) still hold the forwarder", held), || desc.clone());
+                        }
+                        o
+                    }
                     Err(p) => {
                         rep.violation_with(format!("tunnel:panic:{}", reqs2[0]["kind"].as_str().unwrap()), format!("panic: {}", p), || desc.clone());
                         continue;
